@@ -899,21 +899,61 @@ func ruleR19j(c *Ctx) {
 		return
 	}
 	n := 0
-	ast.Inspect(fd.Body, func(x ast.Node) bool {
-		kv, ok := x.(*ast.KeyValueExpr)
-		if !ok {
+	// the entry state's literal: in Execute itself, or in a helper Execute hands its writer to
+	holder, cl := entryStateLit(c)
+	expect := wr // the object the literal's wr field must name
+	if holder != nil && holder != fd {
+		expect = nil
+		hfn, _ := info.Defs[holder.Name].(*types.Func)
+		ast.Inspect(fd.Body, func(x ast.Node) bool {
+			call, ok := x.(*ast.CallExpr)
+			if !ok || calleeFunc(call, info) != hfn {
+				return true
+			}
+			k := 0
+			for _, fl := range holder.Type.Params.List {
+				for _, nm := range fl.Names {
+					if k < len(call.Args) {
+						if aid, ok := ast.Unparen(call.Args[k]).(*ast.Ident); ok && info.Uses[aid] == wr {
+							expect = info.Defs[nm]
+						}
+					}
+					k++
+				}
+			}
 			return true
+		})
+		// the helper must not rewrap its parameter either
+		if expect != nil {
+			ast.Inspect(holder.Body, func(x ast.Node) bool {
+				if as, ok := x.(*ast.AssignStmt); ok {
+					for _, l := range as.Lhs {
+						if id, ok := ast.Unparen(l).(*ast.Ident); ok && info.Uses[id] == expect {
+							n++
+							c.bad("R19j", "soyhtml.Renderer.Execute rewraps-writer", as.Pos(), "the caller's writer is replaced by "+exprKey(as.Rhs[0])+" before rendering")
+						}
+					}
+				}
+				return true
+			})
 		}
-		id, ok := kv.Key.(*ast.Ident)
-		if !ok || id.Name != "wr" {
-			return true
+	}
+	if cl != nil {
+		for _, el := range cl.Elts {
+			kv, ok := el.(*ast.KeyValueExpr)
+			if !ok {
+				continue
+			}
+			id, ok := kv.Key.(*ast.Ident)
+			if !ok || id.Name != "wr" {
+				continue
+			}
+			n++
+			vid, isID := ast.Unparen(kv.Value).(*ast.Ident)
+			c.check(isID && expect != nil && info.Uses[vid] == expect, "R19j", "soyhtml.Renderer.Execute state-writer", kv.Pos(), "the renderer writes to the caller's writer directly",
+				"the entry state's writer is "+exprKey(kv.Value)+", not the caller's writer itself: output held back by a wrapper fails when it is flushed, and the error is positioned at the last command walked instead of the one whose output failed")
 		}
-		n++
-		vid, isID := ast.Unparen(kv.Value).(*ast.Ident)
-		c.check(isID && info.Uses[vid] == wr, "R19j", "soyhtml.Renderer.Execute state-writer", kv.Pos(), "the renderer writes to the caller's writer directly",
-			"the entry state's writer is "+exprKey(kv.Value)+", not the caller's writer itself: output held back by a wrapper fails when it is flushed, and the error is positioned at the last command walked instead of the one whose output failed")
-		return true
-	})
+	}
 	// and the parameter is not reassigned
 	ast.Inspect(fd.Body, func(x ast.Node) bool {
 		if as, ok := x.(*ast.AssignStmt); ok {
